@@ -13,6 +13,7 @@ import OdlModel.Model.ElemOps
 import OdlModel.Lemmas.CRat
 import OdlModel.Gen.LincombFront
 import OdlModel.Gen.Broadcast
+import OdlModel.Gen.OpFront
 
 namespace OdlModel.C01
 open OdlModel.Lincomb OdlModel.Gen.Lincomb
@@ -1183,6 +1184,53 @@ theorem C01.lincomb_front_rejects (hasField outGiven outIn aIn x1In bGiven x2Giv
   cases hasField <;> cases outGiven <;> cases outIn <;> cases aIn <;> cases x1In <;>
     cases bGiven <;> cases x2Given <;> cases bIn <;> cases x2In <;>
     simp [lincombFront, FrontOutcome.isError]
+
+/-! ## The tests in front of the operators -/
+
+section
+open OdlModel.Gen.OpFront
+
+/-- The decision chain in front of each of the twelve operator methods of `LinearSpaceElement`,
+as EXTRACTED from `odl/set/space.py` on this run (`Gen.OpFront.progOf`, with the re-entries
+`__radd__ → __add__`, coercion → same method), routes every operand exactly as the
+specification `opFront` says: delegation to a higher `__array_priority__` (out-of-place and
+reflected forms only), `NotImplemented` without a field, the writing branch for an element of
+the space, a scalar (unless `one()` is needed and missing) or a coercible array-like, and a
+refusal (`NotImplemented`; in place `TypeError`) for foreign elements and anything else.
+`hwf`: an element of the space is a `LinearSpaceElement`, and no `LinearSpaceElement` is a
+scalar. By evaluation over all 12 x 2^7 cases. -/
+theorem C01.extracted_opfront_is_model (m : Meth) (f : OFacts)
+    (hwf : (f.inSpace = true → f.isElem = true) ∧ (f.isElem = true → f.inField = false)) :
+    (progOf m).eval progOf 40 f = some (opFront m f) := by
+  obtain ⟨prio, noField, inSpace, isElem, inField, noOne, coercible⟩ := f
+  cases m <;> cases prio <;> cases noField <;> cases inSpace <;> cases isElem <;>
+    cases inField <;> cases noOne <;> cases coercible <;>
+    first | rfl | exact absurd (hwf.1 rfl) (by decide) | exact absurd (hwf.2 rfl) (by decide)
+
+/-- No operator writes for an operand it cannot combine: the extracted chain reaches a branch
+that calls `space.lincomb / multiply / divide` ONLY if the space has a field and `other` is an
+element of this very space, a field scalar or a coercible array-like — never for an element of
+another space, never when a higher-priority operand should have been given the call. Together
+with `C01.elem_op_correct` (what the writing branches do) this closes the operators from their
+first line. -/
+theorem C01.opfront_write_only_if (m : Meth) (f : OFacts)
+    (hwf : (f.inSpace = true → f.isElem = true) ∧ (f.isElem = true → f.inField = false))
+    (h : (progOf m).eval progOf 40 f = some .write) :
+    f.noField = false ∧ (f.inSpace = true ∨ f.inField = true ∨ f.coercible = true) ∧
+      (f.isElem = true → f.inSpace = true) ∧ (m.inPlace = false → f.prio = false) := by
+  rw [C01.extracted_opfront_is_model m f hwf] at h
+  obtain ⟨prio, noField, inSpace, isElem, inField, noOne, coercible⟩ := f
+  cases m <;> cases prio <;> cases noField <;> cases inSpace <;> cases isElem <;>
+    cases inField <;> cases noOne <;> cases coercible <;>
+    simp_all [opFront, Meth.delegateTo, Meth.inPlace, Meth.needsOne]
+
+/-- Non-vacuity: a foreign element in place, a list on the reflected side, a high-priority operand. -/
+example : (progOf .isub).eval progOf 40 ⟨false, false, false, true, false, false, false⟩ = some .typeerror ∧
+    (progOf .rsub).eval progOf 40 ⟨false, false, false, false, false, false, true⟩ = some .write ∧
+    (progOf .mul).eval progOf 40 ⟨true, false, false, false, false, false, false⟩ = some (.delegate .rmul) := by
+  refine ⟨?_, ?_, ?_⟩ <;> rw [C01.extracted_opfront_is_model _ _ (by decide)] <;> rfl
+
+end
 
 /-! ## The instance the driver executes -/
 
